@@ -29,7 +29,7 @@ ASSUMPTIONS = ['refjs implements 7.9.1 literally (three rules, restricted produc
                'and is the oracle; ES2015 do-while leniency is not part of the dialect']
 BUDGET_S = {'quick': 75, 'thorough': 900}
 REQUIRED_HITS = ['parse', 'create_semi_token', 'asi_events_compared']
-FLOOR = {'quick': 3000, 'thorough': 50000}
+FLOOR = {'quick': 3000, 'thorough': 40000}
 
 SEPARATORS = [
     ('LF', '\n'), ('CR', '\r'), ('CRLF', '\r\n'), ('LS', '\u2028'), ('PS', '\u2029'),
